@@ -1550,26 +1550,63 @@ def rule_coindexed(chk):
     chk.floor('loops reading coordinates and h of one array', n, 20)
 
 
+def rule_cell_size_model(chk, rule='cell-size-covers-every-array'):
+    """CPUDomainManager._compute_cell_size_for_binning interpreted (E8, lowered Cython) on model array wrappers whose cached h extrema are stale until refreshed: the cell
+    size is radius_scale * (largest h over ALL arrays) - 1.0 when that vanishes -, it is stored and handed to set_cell_size, and hmin is radius_scale * (smallest h)"""
+    import itertools
+    from verif_static import emit as EM, absint as AI
+    t = M.cy(NB)
+    fn = M.find_func(M.find_class(t, 'CPUDomainManager'), '_compute_cell_size_for_binning')
+
+    def wrapper(hmax, hmin):
+        col = EM.mock(maximum=1e-9, minimum=77.0)         # stale: a tiny maximum and a huge minimum, so an unrefreshed read shows as too small a cell / too large an hmin
+
+        def refresh(i, a, k, n, e):
+            col.attrs['maximum'], col.attrs['minimum'] = hmax, hmin
+            return None
+        col.attrs['update_min_max'] = refresh
+        return EM.mock(h=col)
+    SETS = [c for r in (1, 2, 3) for c in itertools.permutations(((0.2, 0.1), (0.7, 0.5), (0.4, 0.05)), r)] + [((0.0, 0.0),), ((0.0, 0.0), (1e-8, 0.0)), ()]
+    bad, und = None, None
+    RS = 2.0
+    for hs in SETS:
+        it = EM.interpreter()
+        EM.model_module(it, '<nb>', t)
+        sets_ = []
+        dm = EM.instance(it, '<nb>', 'CPUDomainManager', pa_wrappers=[wrapper(*x) for x in hs], radius_scale=RS, dtype_max=1e300, cell_size=None, hmin=None,
+                         set_cell_size=lambda i, a, k, n, e: sets_.append(a[0] if a else k.get('cell_size')), in_parallel=False)
+        try:
+            EM.call(it, dm, '_compute_cell_size_for_binning')
+        except (AI.Unsupported, AI.Raised) as ex:
+            und = '%d arrays: %s' % (len(hs), ex)
+            break
+        hmax = max([-1.0] + [x[0] for x in hs])
+        want = RS * hmax if RS * hmax >= 1e-6 else 1.0
+        want_min = RS * min([1e300] + [x[1] for x in hs])
+        got, gmin = dm.attrs.get('cell_size'), dm.attrs.get('hmin')
+        try:
+            okc = abs(float(got) - want) <= 1e-12 * max(1.0, want) and sets_ and abs(float(sets_[-1]) - want) <= 1e-12 * max(1.0, want)
+            okm = abs(float(gmin) - want_min) <= 1e-12 * max(1.0, abs(want_min))
+        except Exception:
+            okc = okm = False
+        if not (okc and okm) and bad is None:
+            bad = (list(hs), got, sets_, gmin, want, want_min)
+    if und:
+        chk.undecided(rule, '_compute_cell_size_for_binning:model-run', node=fn, file=NB, func='CPUDomainManager._compute_cell_size_for_binning', detail='not interpretable on the model: ' + und)
+    else:
+        chk.decide(bad is None, rule, '_compute_cell_size_for_binning:model-run', node=fn, file=NB, func='CPUDomainManager._compute_cell_size_for_binning',
+                   detail_bad='for arrays with (largest h, smallest h) = %s and radius_scale 2 the cell size stored is %s (set_cell_size got %s), hmin %s; expected %s and %s: a cell smaller than '
+                              'radius_scale*max(h) makes the 3x3x3 stencil (and the ghost layers) too thin' % (bad or ('', '', '', '', '', '')),
+                   detail_ok='%d selections / orders of model arrays with stale cached extrema' % len(SETS))
+    return len(SETS)
+
+
 def rule_cell_size(chk):
     """every array contributes to the cell size on every update (3x3x3 stencil sufficiency)"""
     t = M.cy(NB)
     dm = M.find_class(t, 'CPUDomainManager')
     fn = M.find_func(dm, '_compute_cell_size_for_binning')
-    loops = [l for l in fn.body if isinstance(l, ast.For)]
-    ok = len(loops) == 1 and compact(loops[0].iter) in ('pa_wrappers', 'self.pa_wrappers')
-    if ok:
-        l = loops[0]
-        skip = [x for x in ast.walk(l) if isinstance(x, (ast.Continue, ast.Break, ast.Return))]
-        top = [compact(s) for s in l.body]
-        ok = not skip and any(s == 'h.update_min_max()' for s in top) and any(s.startswith('_hmax=h.maximum') for s in top) and \
-            any(isinstance(s, ast.If) and same(s.test, '_hmax>hmax') for s in l.body)
-    chk.decide(ok, 'cell-size-covers-every-array', '_compute_cell_size_for_binning', node=fn, file=NB, func='CPUDomainManager._compute_cell_size_for_binning',
-               detail_bad='some particle array can be skipped when the maximum smoothing length is gathered (conditional / continue inside the loop over arrays): '
-                          'if its h is the largest the cells become smaller than radius_scale*max(h) and the 3x3x3 stencil misses neighbours',
-               detail_ok='every array: update_min_max(), fold h.maximum')
-    cs = [a for a in ast.walk(fn) if isinstance(a, ast.Assign) and compact(a.targets[0]) == 'cell_size' and 'hmax' in compact(a.value)]
-    chk.decide(bool(cs) and same(cs[0].value, 'self.radius_scale*hmax'), 'cell-size-covers-every-array', 'cell_size', node=fn, file=NB,
-               func='CPUDomainManager._compute_cell_size_for_binning', detail_bad='cell size is not radius_scale*hmax', detail_ok='radius_scale*hmax')
+    chk.floor('model runs of _compute_cell_size_for_binning', rule_cell_size_model(chk), 15)
     up = M.find_func(dm, 'update')
     g = C.build_cfg(up)
     first = [n.id for n in g.nodes if n.ast is not None and isinstance(n.ast, ast.Expr) and M.call_name(n.ast.value) == 'self._compute_cell_size_for_binning']
